@@ -32,7 +32,11 @@ where
     let mut next = Vec::new();
     loop {
         if todo[usize::from(c)].is_empty() {
-            c = c.checked_add(1).unwrap();
+            c = match c.checked_add(1) {
+                Some(c) => c,
+                // Every representable cost has been tried.
+                None => return Vec::new(),
+            };
             if usize::from(c) == todo.len() {
                 return Vec::new();
             }
